@@ -52,14 +52,16 @@ CONFIGS = {
     'EKF-IMU': [(dict(frame='NED', frequency=10.0), 300, 0.5), (dict(frame='NED', frequency=100.0, noises=[0.1**2, 0.3**2, 0.5**2]), 300, 0.5)],
     'EKF-IMU-ENU': [(dict(frame='ENU', frequency=10.0), 300, 0.5)],
     'EKF-MARG': [(dict(frame='NED', magnetic_ref=DIP, frequency=10.0), 1200, 0.5), (dict(frame='NED', magnetic_ref=DIP, frequency=100.0), 9000, 0.5),
-                 (dict(frame='NED', magnetic_ref=np.array([21.0, 1.2, 43.1]), frequency=10.0), 1200, 0.5)],     # a reference given as a field vector in uT (with declination)
+                 (dict(frame='NED', magnetic_ref=np.array([21.0, 1.2, 43.1]), frequency=10.0), 1200, 0.5),     # a reference given as a field vector in uT (with declination)
+                 (dict(frame='NED', frequency=10.0), 1200, 0.5)],                                                # magnetic reference omitted (the default)
     'EKF-MARG-ENU': [(dict(frame='ENU', magnetic_ref=DIP, frequency=10.0), 1200, 0.5),
                      (dict(frame='ENU', magnetic_ref=np.array([1.2, 21.0, -43.1]), frequency=10.0), 1200, 0.5)],
     'UKF-IMU': [(dict(frequency=10.0), 2000, 1.0), (dict(frequency=100.0), 2000, 1.0)],
     'AQUA-IMU': [(dict(frequency=10.0, alpha=0.05), 400, 0.5), (dict(frequency=100.0), 1500, 0.5), (dict(frequency=10.0, alpha=0.05, adaptive=True), 400, 0.5)],
     'AQUA-MARG': [(dict(frequency=10.0, alpha=0.05, beta=0.05), 500, 0.5), (dict(frequency=100.0), 2000, 0.5), (dict(frequency=10.0, alpha=0.05, beta=0.05, adaptive=True), 500, 0.5)],
-    'ROLEQ-MARG': [(dict(frame='NED', magnetic_ref=DIP, frequency=10.0), 200, 0.5), (dict(frame='NED', magnetic_ref=DIP, frequency=100.0), 200, 0.5)],
-    'ROLEQ-MARG-ENU': [(dict(frame='ENU', magnetic_ref=DIP, frequency=10.0), 300, 0.5)],
+    'ROLEQ-MARG': [(dict(frame='NED', magnetic_ref=DIP, frequency=10.0), 200, 0.5), (dict(frame='NED', magnetic_ref=DIP, frequency=100.0), 200, 0.5),
+                   (dict(frame='NED', frequency=10.0), 300, 0.5)],                   # magnetic reference omitted (the default)
+    'ROLEQ-MARG-ENU': [(dict(frame='ENU', magnetic_ref=DIP, frequency=10.0), 300, 0.5), (dict(frame='ENU', frequency=10.0), 300, 0.5)],
     'FKF-MARG': [(dict(frequency=10.0), 3000, 0.5)],
     'Complementary-IMU': [(dict(frequency=10.0, gain=0.0), 2, 0.5), (dict(frequency=10.0, gain=0.0), 3, 0.5), (dict(frequency=10.0, gain=0.0), 4, 0.5), (dict(frequency=10.0, gain=0.0), 5, 0.5),
                           (dict(frequency=10.0, gain=0.9), 200, 0.5), (dict(frequency=100.0, gain=0.2), 1000, 0.5), (dict(frequency=100.0), 8000, 0.5)],
@@ -96,6 +98,11 @@ def run_orbit(r, cfg, H, qt, axis, ang_deg, pattern):
     g, m = r.refs(DIP)
     if isinstance(cfg.get('magnetic_ref'), np.ndarray):        # reference given as a vector: the data are images of that direction
         m = cfg['magnetic_ref'] / np.linalg.norm(cfg['magnetic_ref'])
+    elif r.cls_name in ('EKF', 'ROLEQ') and r.has_mag and 'magnetic_ref' not in cfg:
+        # reference OMITTED: the data are images of the default reference the filter itself reports (derived from the WMM at import)
+        probe = r.fresh(cfg)
+        m = np.asarray(probe.m_ref, float) / np.linalg.norm(np.asarray(probe.m_ref, float))
+        g = np.asarray(probe.a_ref, float) / np.linalg.norm(np.asarray(probe.a_ref, float))
     Rt = rq.R(qt)
     acc1 = Rt.T @ g * 9.81; mag1 = Rt.T @ m * 45.0
     if axis is None:
@@ -207,6 +214,10 @@ def job_stream(ctx, key, ci, k):
     g, m = r.refs(DIP)
     if isinstance(cfg.get('magnetic_ref'), np.ndarray):
         m = cfg['magnetic_ref'] / np.linalg.norm(cfg['magnetic_ref'])
+    elif r.cls_name in ('EKF', 'ROLEQ') and r.has_mag and 'magnetic_ref' not in cfg:
+        probe = r.fresh(cfg)
+        m = np.asarray(probe.m_ref, float) / np.linalg.norm(np.asarray(probe.m_ref, float))
+        g = np.asarray(probe.a_ref, float) / np.linalg.norm(np.asarray(probe.a_ref, float))
     tilt_only = not r.has_mag
     pat = noise_patterns()[4]
     Rt = rq.R(qt)
